@@ -26,6 +26,19 @@
 (* GHOST state g (not part of the implementation): the packets accepted on *)
 (* a path in its CURRENT window and not undone -- the accounting identity  *)
 (* of property C41 is   outflow = Sum(accOut),  inflow = Sum(accIn).       *)
+(*                                                                         *)
+(* WHITELIST / BLACKLIST (keeper/whitelist.go, blacklist.go, flow.go):     *)
+(* a transfer between a whitelisted (sender, receiver) ADDRESS PAIR skips  *)
+(* the flow calculation altogether: it is accepted whatever the quota, it  *)
+(* is NOT counted, it leaves NO pending marker, and its refund therefore   *)
+(* does not touch the flow.  A transfer of a blacklisted denomination is   *)
+(* refused (send: transaction fails, receive: error acknowledgement) on    *)
+(* every channel, limited or not.  Addresses are abstract party names:     *)
+(*   "uA" "rA"  user / second account of A     "xA" "yA"  two invalid      *)
+(*   address strings standing for a receiver on A (the receive fails);     *)
+(*   likewise uB rB xB yB, uC rC xC yC.  A pair is the string  snd>rcv.    *)
+(* A transfer carries  w \in {0, 1}: which of the two valid (fate # err) /  *)
+(* invalid (fate = err) addresses it names as its receiver.                *)
 (***************************************************************************)
 EXTENDS Integers, Sequences, FiniteSets, TLC
 
@@ -52,6 +65,8 @@ SumAmt(X) == IF X = {} THEN 0 ELSE LET x == CHOOSE y \in X : TRUE IN x.amt + Sum
 (*  ns   [Chans -> next send sequence of A]                                *)
 (*  nr   next sequence of packets B -> A                                   *)
 (*  pk   packets in flight (packet layer abstraction)                      *)
+(*  wl   whitelisted address pairs (set of strings  snd>rcv)               *)
+(*  bl   blacklisted denominations (subset of Denoms)                      *)
 (*  g    ghost [out, inn : Paths -> set of [seq, amt]], undone             *)
 (***************************************************************************)
 EmptyGhost == [out |-> [p \in Paths |-> {}], inn |-> [p \in Paths |-> {}], undone |-> {}]
@@ -59,8 +74,24 @@ EmptyGhost == [out |-> [p \in Paths |-> {}], inn |-> [p \in Paths |-> {}], undon
 PathMarkers(M, p) == { m \in M : m.p = p }
 
 (***************************************************************************)
+(* Address pairs of a transfer                                             *)
+(***************************************************************************)
+Wv(a) == IF "w" \in DOMAIN a THEN a.w ELSE 0
+PeerOf(ch) == IF ch = "AB" THEN "B" ELSE "C"
+Party(c, fate, w) == (IF fate = "err" THEN (IF w = 1 THEN "y" ELSE "x") ELSE (IF w = 1 THEN "r" ELSE "u")) \o c
+Pair(snd, rcv) == snd \o ">" \o rcv
+\* MsgTransfer of the user of A over a.ch / packet of the user of B to an account of A
+SendPair(a) == Pair("uA", Party(PeerOf(a.ch), a.fate, Wv(a)))
+RecvPair(a) == Pair("uB", Party("A", a.fate, Wv(a)))
+
+G_NotBlacklisted(S, d) == d \notin S.bl
+SendWhitelisted(S, a) == SendPair(a) \in S.wl
+RecvWhitelisted(S, a) == RecvPair(a) \in S.wl
+
+(***************************************************************************)
 (* Named guard clauses                                                     *)
 (***************************************************************************)
+\* quota.go CheckExceedsQuota: exact integer arithmetic, the quotient is truncated
 Threshold(cv, pct) == (cv * pct) \div 100
 
 \* quota.go CheckExceedsQuota: a zero channel value disables the limit (documented in the code)
@@ -160,9 +191,9 @@ SupAdd(S, d, amt) == IF d = "V" THEN [S EXCEPT !.sup["V"] = @ + amt] ELSE S
 (***************************************************************************)
 \* MsgTransfer by the user of A over ch
 DoSend(S, a) ==
-    LET p == PathOf(a.d, a.ch)  seq == S.ns[a.ch]  r == S.rl[p] IN
-    IF ~(a.amt >= 1 /\ G_SendWithinQuota(r, a.amt)) THEN R("err", "", S)
-    ELSE LET S1 == ChargeSend(S, p, seq, a.amt)
+    LET p == PathOf(a.d, a.ch)  seq == S.ns[a.ch]  r == S.rl[p]  wlp == SendWhitelisted(S, a) IN
+    IF ~(a.amt >= 1 /\ G_NotBlacklisted(S, a.d) /\ (wlp \/ G_SendWithinQuota(r, a.amt))) THEN R("err", "", S)
+    ELSE LET S1 == IF wlp THEN S ELSE ChargeSend(S, p, seq, a.amt)
              P  == [dir |-> "out", ch |-> a.ch, seq |-> seq, d |-> a.d, amt |-> a.amt, fate |-> a.fate, fw |-> 0]
          IN R("ok", "", [SupAdd(S1, a.d, 0 - a.amt) EXCEPT !.ns[a.ch] = @ + 1, !.pk = @ \cup {P}])
 
@@ -170,15 +201,17 @@ IsFwd(f) == f \in {"fok", "ferr", "fto"}
 
 \* MsgRecvPacket on A of a packet sent by B over AB (the send on B is part of the same step)
 DoRecv(S, a) ==
-    LET p == PathOf(a.d, "AB")  seq == S.nr  r == S.rl[p]
+    LET p == PathOf(a.d, "AB")  seq == S.nr  r == S.rl[p]  wlp == RecvWhitelisted(S, a)
         S0 == [S EXCEPT !.nr = @ + 1]
-    IN IF ~G_RecvWithinQuota(r, a.amt) THEN R("ok", "err", S0)          \* error ack by the rate limiter
+    IN IF ~G_NotBlacklisted(S, a.d) THEN R("ok", "err", S0)             \* error ack by the rate limiter
+       ELSE IF ~wlp /\ ~G_RecvWithinQuota(r, a.amt) THEN R("ok", "err", S0)   \* error ack by the rate limiter
        ELSE IF a.fate = "err" THEN R("ok", "err", S0)                   \* transfer fails: state of the callback discarded
-       ELSE IF a.fate = "ok" THEN R("ok", "ok", SupAdd(ChargeRecv(S0, p, seq, a.amt, FALSE), a.d, a.amt))
-       ELSE \* forwarded over AC by the packet-forward middleware: a second transfer out of A
+       ELSE IF a.fate = "ok" THEN R("ok", "ok", SupAdd((IF wlp THEN S0 ELSE ChargeRecv(S0, p, seq, a.amt, FALSE)), a.d, a.amt))
+       ELSE \* forwarded over AC by the packet-forward middleware: a second transfer out of A (its sender is the
+            \* middleware's own account: never a whitelisted pair)
             LET pf == PathOf(a.d, "AC")  fs == S.ns["AC"] IN
             IF ~G_SendWithinQuota(S.rl[pf], a.amt) THEN R("ok", "err", S0)   \* forward refused: synchronous error ack
-            ELSE LET S1 == ChargeRecv(S0, p, seq, a.amt, TRUE)
+            ELSE LET S1 == IF wlp THEN S0 ELSE ChargeRecv(S0, p, seq, a.amt, TRUE)
                      S2 == ChargeSend(S1, pf, fs, a.amt)
                      P  == [dir |-> "in", ch |-> "AB", seq |-> seq, d |-> a.d, amt |-> a.amt, fate |-> a.fate, fw |-> fs]
                  IN R("ok", "none", [SupAdd(S2, a.d, a.amt) EXCEPT !.ns["AC"] = @ + 1, !.pk = @ \cup {P}])
@@ -227,6 +260,12 @@ DoReset(S, a) ==
     LET p == PathOf(a.d, a.ch) IN
     IF ~S.rl[p].on THEN R("err", "", S) ELSE R("ok", "", StartWindow(S, p, S.rl[p]))
 
+\* whitelist / blacklist administration (keeper functions used by genesis and upgrade handlers; total, idempotent)
+DoWlAdd(S, a) == R("ok", "", [S EXCEPT !.wl = @ \cup {a.pair}])
+DoWlDel(S, a) == R("ok", "", [S EXCEPT !.wl = @ \ {a.pair}])
+DoBlAdd(S, a) == R("ok", "", [S EXCEPT !.bl = @ \cup {a.d}])
+DoBlDel(S, a) == R("ok", "", [S EXCEPT !.bl = @ \ {a.d}])
+
 (***************************************************************************)
 (* Step.  a = [a |-> name, dt |-> ticks, nb |-> blocks of A in this step]  *)
 (* A failed transaction changes nothing but the begin blockers still ran.  *)
@@ -247,6 +286,10 @@ Tx(S, a) ==
       [] a.a = "Update"  -> DoUpdate(S, a)
       [] a.a = "Remove"  -> DoRemove(S, a)
       [] a.a = "Reset"   -> DoReset(S, a)
+      [] a.a = "WlAdd"   -> DoWlAdd(S, a)
+      [] a.a = "WlDel"   -> DoWlDel(S, a)
+      [] a.a = "BlAdd"   -> DoBlAdd(S, a)
+      [] a.a = "BlDel"   -> DoBlDel(S, a)
 
 Step(S, a) == Tx(Pre(S, a), a)
 
@@ -268,5 +311,5 @@ InitState(supN, supV, nsAB, nsAC, nr) ==
      rl |-> [p \in Paths |-> NoRL], ps |-> {}, pr |-> {},
      sup |-> [d \in Denoms |-> IF d = "N" THEN supN ELSE supV],
      ns |-> [c \in Chans |-> IF c = "AB" THEN nsAB ELSE nsAC], nr |-> nr,
-     pk |-> {}, g |-> EmptyGhost]
+     pk |-> {}, wl |-> {}, bl |-> {}, g |-> EmptyGhost]
 =============================================================================
